@@ -22,6 +22,10 @@
 (*                only): FALSE with RecheckWord TRUE = "drop waits once, join loops"          *)
 (*   CheckClone   TRUE : a failed clone releases everything and returns Err                  *)
 (*                FALSE: pinned tree: return value of __clone ignored, Ok(handle)            *)
+(*   RetryClone   FALSE: current tree: one clone attempt per spawn                            *)
+(*                TRUE : deviation "retry while clone fails with EAGAIN" - with a failure that  *)
+(*                       persists (p \in FailClone means EVERY attempt for p fails) spawn      *)
+(*                       never returns: JoinTerminates (<> H done, fairness of H) is violated   *)
 (*   MmapFirst    TRUE : stack mapped before anything is allocated                           *)
 (*                FALSE: pinned tree: join block + boxed closure allocated first, `?` on mmap*)
 (*   DropResult   TRUE : whoever frees the join block of a dropped handle drops a stored     *)
@@ -37,7 +41,7 @@ CONSTANTS NT,          \* number of threads
           Spurious,    \* budget of spurious futex returns
           FailMmap,    \* set of threads whose stack mmap fails
           FailClone,   \* set of threads whose clone fails
-          RecheckWord, RecheckDrop, CheckClone, MmapFirst, DropResult, KernelAtomic
+          RecheckWord, RecheckDrop, CheckClone, RetryClone, MmapFirst, DropResult, KernelAtomic
 
 Threads == 1..NT
 RS == {"none", "live", "freed"}
@@ -147,7 +151,9 @@ Clone ==         \* at 4 -> __clone(...)
           /\ ctid' = [ctid EXCEPT ![P] = TRUE]
           /\ hpc' = "6"
           /\ UNCHANGED <<hop, tsm, tls, stk, clo, sres>>
-       \/ /\ P \in FailClone
+       \/ /\ P \in FailClone /\ RetryClone     \* Clone(fail), go again: the environment may repeat it for ever
+          /\ UNCHANGED <<hpc, hop, tpc, ctid, tsm, tls, stk, clo, sres>>
+       \/ /\ P \in FailClone /\ ~RetryClone
           /\ IF CheckClone
              THEN /\ tls' = AllFreed(tls, P) /\ stk' = AllFreed(stk, P)   \* Clone(fail): clean up, Err
                   /\ clo' = AllFreed(clo, P) /\ tsm' = AllFreed(tsm, P)
